@@ -27,6 +27,10 @@ pub struct Stats {
     pub fails: Vec<String>,
     pub categories: HashSet<String>,
     pub bound: String,
+    /// for obligations with millions of cases: a 2^26-bit Bloom-style bitset instead of a hash set;
+    /// collisions only ever UNDER-count distinct cases
+    pub bits: Vec<u64>,
+    pub bits_set: u64,
 }
 
 pub fn hash_of<T: Hash>(t: &T) -> u64 {
@@ -54,13 +58,26 @@ fn jstr(s: &str) -> String {
 
 impl Stats {
     pub fn new(id: &'static str, bound: &str) -> Stats {
-        Stats { id, evals: 0, distinct: HashSet::new(), samples: vec![], fails: vec![], categories: HashSet::new(), bound: bound.to_string() }
+        Stats { id, evals: 0, distinct: HashSet::new(), samples: vec![], fails: vec![], categories: HashSet::new(), bound: bound.to_string(), bits: Vec::new(), bits_set: 0 }
     }
     /// one executed case; `key` identifies it, `nontrivial` says whether it exercises the property
     pub fn case<T: Hash>(&mut self, key: &T, nontrivial: bool) {
         self.evals += 1;
         if nontrivial {
             self.distinct.insert(hash_of(key));
+        }
+    }
+    /// one executed case, counted in the bitset (cheap; conservative under-count of distinct cases)
+    pub fn case_bits<T: Hash>(&mut self, key: &T) {
+        self.evals += 1;
+        if self.bits.is_empty() {
+            self.bits = vec![0u64; 1 << 20];
+        }
+        let h = hash_of(key) & ((1 << 26) - 1);
+        let (w, b) = ((h >> 6) as usize, h & 63);
+        if self.bits[w] >> b & 1 == 0 {
+            self.bits[w] |= 1 << b;
+            self.bits_set += 1;
         }
     }
     pub fn sample(&mut self, s: String) {
@@ -109,7 +126,7 @@ impl Stats {
             "XSTAT {{\"id\":{},\"evaluations\":{},\"distinct_nontrivial\":{},\"failures\":{},\"bound\":{},\"samples\":[{}]}}",
             jstr(self.id),
             self.evals,
-            self.distinct.len(),
+            self.distinct.len() as u64 + self.bits_set,
             self.fails.len(),
             jstr(&self.bound),
             samples.join(",")
